@@ -54,13 +54,32 @@ pub struct Gen<'a> {
     counter: usize,
     /// prefix for every generated top-level and member name (keeps files of a project disjoint)
     pub prefix: String,
+    /// file each class / function was generated in, the current file, and the files whose
+    /// declarations the current file may use (cross-file use in generated projects)
+    pub class_file: Vec<usize>,
+    pub fun_file: Vec<usize>,
+    pub cur_file: usize,
+    pub visible_files: BTreeSet<usize>,
 }
 
 const WORDS: &[&str] = &["alpha", "beta", "gamma", "delta", "omega", "kappa", "sigma", "theta", "zeta", "iota"];
 
 impl<'a> Gen<'a> {
     pub fn new(rng: &'a mut Rng, fenced: &'a BTreeSet<String>, prefix: &str) -> Gen<'a> {
-        Gen { rng, classes: vec![], funs: vec![], vars: vec![], out: String::new(), fenced, counter: 0, prefix: prefix.to_string() }
+        Gen {
+            rng,
+            classes: vec![],
+            funs: vec![],
+            vars: vec![],
+            out: String::new(),
+            fenced,
+            counter: 0,
+            prefix: prefix.to_string(),
+            class_file: vec![],
+            fun_file: vec![],
+            cur_file: 0,
+            visible_files: BTreeSet::new(),
+        }
     }
 
     fn fresh(&mut self, stem: &str) -> String {
@@ -87,8 +106,37 @@ impl<'a> Gen<'a> {
         }
     }
 
+    fn file_visible(&self, f: usize) -> bool {
+        f == self.cur_file || self.visible_files.contains(&f)
+    }
+
     fn plain_classes(&self) -> Vec<usize> {
-        (0..self.classes.len()).filter(|&i| !self.classes[i].is_exception).collect()
+        (0..self.classes.len())
+            .filter(|&i| !self.classes[i].is_exception && self.file_visible(self.class_file.get(i).cloned().unwrap_or(self.cur_file)))
+            .collect()
+    }
+
+    /// Start a new file of the same project: fresh prefix and output, no top-level variables,
+    /// declarations of `visible` earlier files usable.
+    pub fn begin_file(&mut self, file: usize, prefix: &str, visible: &BTreeSet<usize>) {
+        while self.class_file.len() < self.classes.len() {
+            self.class_file.push(self.cur_file);
+        }
+        while self.fun_file.len() < self.funs.len() {
+            self.fun_file.push(self.cur_file);
+        }
+        self.cur_file = file;
+        self.prefix = prefix.to_string();
+        self.visible_files = visible.clone();
+        self.vars.clear();
+        self.out.clear();
+    }
+
+    /// classes of other (visible) files
+    pub fn foreign_plain_classes(&self) -> Vec<usize> {
+        (0..self.classes.len())
+            .filter(|&i| !self.classes[i].is_exception && self.class_file.get(i).map(|f| *f != self.cur_file && self.visible_files.contains(f)).unwrap_or(false))
+            .collect()
     }
 
     fn any_ty(&mut self) -> Ty {
@@ -175,7 +223,9 @@ impl<'a> Gen<'a> {
             },
             5 => {
                 // call of a non-raising function returning t
-                let cands: Vec<usize> = (0..self.funs.len()).filter(|&i| self.funs[i].ret == *t && self.funs[i].raises.is_empty()).collect();
+                let cands: Vec<usize> = (0..self.funs.len())
+                    .filter(|&i| self.funs[i].ret == *t && self.funs[i].raises.is_empty() && self.file_visible(self.fun_file.get(i).cloned().unwrap_or(self.cur_file)))
+                    .collect();
                 if cands.is_empty() {
                     return self.leaf(t);
                 }
@@ -706,6 +756,39 @@ impl<'a> Gen<'a> {
         for _ in 0..nt {
             self.gen_toplevel();
         }
+    }
+}
+
+impl<'a> Gen<'a> {
+    /// A small program (cheap for the checker): used for the files of generated projects.
+    pub fn small_program(&mut self) {
+        let ncls = self.rng.below(3);
+        for _ in 0..ncls {
+            self.gen_class();
+        }
+        if self.rng.chance(1, 5) {
+            self.gen_exceptions();
+        }
+        for _ in 0..self.rng.below(2) {
+            self.gen_function();
+        }
+        for _ in 0..self.rng.range(1, 3) {
+            self.gen_toplevel();
+        }
+    }
+
+    /// A line that certainly uses class `ci` (constructs it and reads back nothing else).
+    pub fn use_line(&mut self, ci: usize) -> String {
+        let v = self.fresh("use");
+        let e = self.ctor(ci, 2);
+        format!("def {v} := {e}\n")
+    }
+
+    pub fn call_line(&mut self, fi: usize) -> String {
+        let f = self.funs[fi].clone();
+        let v = self.fresh("call");
+        let args: Vec<String> = f.params.iter().map(|(_, t, _)| self.lit(t)).collect();
+        format!("def {v} := {}({})\n", f.name, args.join(", "))
     }
 }
 
